@@ -18,7 +18,8 @@ def run(tier):
     ck = runner.Check(PROP, tier, "exploration")
     t = ["tier=" + tier]
     ck.add(runner.run_slices(b, ["csv"] + t, nslices=runner.NCPU * 4))
-    ck.add(runner.run_slices(b, ["toon"] + t, nslices=runner.NCPU))
+    # thorough: every slice materialises the whole tree set (~3.6 GB), so only a few run at a time
+    ck.add(runner.run_slices(b, ["toon"] + t, nslices=runner.NCPU, jobs=(runner.NCPU if tier == "quick" else 4)))
     ck.rule = ("CSV: tables of 1x1, 1x2, 2x1 (cells: every string of length <= 2 over {a 1 , ; \" ' LF CR space \\ e-acute TAB |}, plus "
                "1, -1.5, true, false, null, -7 where types are inferred) and 2x2 (reduced cell alphabet) x 288 option sets (field delimiter "
                ", ; TAB |; quote char \" '; quote escape = quote or backslash; line delimiter LF / CRLF; quote style all / nonnumeric with "
